@@ -94,6 +94,9 @@ func trim(s string) string {
 
 func writeEvidence(id string, ev evidence) {
 	dir := filepath.Join(h.VerifDir, "evidence")
+	if d := os.Getenv("VERIF_EVIDENCE_DIR"); d != "" {
+		dir = d // development runs against seeded copies must not overwrite the evidence of record
+	}
 	os.MkdirAll(dir, 0o755)
 	data, _ := json.MarshalIndent(ev, "", " ")
 	tmp := filepath.Join(dir, id+".json.tmp")
